@@ -55,7 +55,7 @@ def plan(tier, seed):
 
 def mandatory(tier):
     out = [f"matmul/{a}x{b}/{ba}x{bb}/D{D}" for a in FORMS for b in FORMS for ba in BATCH for bb in BATCH for D in (2, 3)]
-    out += [f"order/{o}" for o in ORDERS] + ["euler2d", "euler_angles/ZXZ", "euler_angles/XZX", "quaternion", "angle_axis", "setters/Parameter", "setters/buffer", "transform_points", "transform_vectors"]
+    out += [f"order/{o}" for o in ORDERS] + ["euler2d", "euler_angles/ZXZ", "euler_angles/XZX", "quaternion", "angle_axis", "setters/Parameter", "setters/buffer", "setters/requires_grad_toggle", "transform_points", "transform_vectors"]
     return out
 
 
@@ -157,6 +157,11 @@ def matmul(ctx, D):
                 v = homogeneous_transform(torch.tensor(a), torch.tensor(x), vectors=True)
                 ctx.bucket("transform_vectors")
                 ctx.close("transform_vectors_ignores_exactly_translation", v, refv, 1e-12, key=f"transform/vectors/{form}", **info)
+                # the same maps through the wrappers in core.affine (re-exported by core.functional)
+                from deepali.core import affine as A_
+
+                ctx.close("affine_transform_points_vs_numpy", A_.transform_points(torch.tensor(a), torch.tensor(x)), refp, 1e-12, key=f"transform/points/{form}", wrapper="affine.transform_points", **info)
+                ctx.close("affine_transform_vectors_ignores_exactly_translation", A_.transform_vectors(torch.tensor(a), torch.tensor(x)), refv, 1e-12, key=f"transform/vectors/{form}", wrapper="affine.transform_vectors", **info)
 
 
 def notations(order):
@@ -279,6 +284,19 @@ def case(ctx, i):
                 ref = np.stack([L.euler(x, o) for x in a])
                 ctx.close("euler_transform_matrix", L.full(t.matrix().detach().numpy(), 3), L.full(ref, 3), tol, key="setters/EulerRotation.matrix", kind=kind, order=str(order))
                 ctx.close("euler_transform_tensor", t.tensor().detach(), ref, tol, key="setters/EulerRotation.matrix", kind=kind, order=str(order))
+                # the inverted rotation is the transpose, for every order
+                ti = t.inverse(link=False, update_buffers=True)
+                ctx.close("euler_inverse_is_transpose", ti.tensor().detach(), np.swapaxes(ref, -1, -2), tol, key="setters/EulerRotation.inverse", kind=kind, order=str(order))
+                if kind == "Parameter":
+                    # freezing / unfreezing the parameter between setter and getter does not change the rotation
+                    ctx.bucket("setters/requires_grad_toggle")
+                    t.requires_grad_(False)
+                    ctx.close("euler_angles_getter_after_freezing", t.angles(), a, tol, key="setters/EulerRotation.frozen", kind=kind, order=str(order))
+                    ctx.close("euler_tensor_after_freezing", t.tensor().detach(), ref, tol, key="setters/EulerRotation.frozen", kind=kind, order=str(order))
+                    a2 = rng.uniform(-3.0, 3.0, size=(2, 3))
+                    t.angles_(torch.tensor(a2, dtype=torch.float32))
+                    t.requires_grad_(True)
+                    ctx.close("euler_angles_set_while_frozen_then_unfrozen", t.angles(), a2, tol, key="setters/EulerRotation.frozen", kind=kind, order=str(order))
             t2 = S.EulerRotation(g2, groups=2, params=params)
             a = rng.uniform(-3.0, 3.0, size=(2, 1))
             t2.angles_(torch.tensor(a, dtype=torch.float32))
